@@ -254,6 +254,10 @@ pub enum At {
     AnyConnect,
     /// between the previous call and this one (idle connection)
     Idle,
+    /// on the k-th connection this call uses (k = 0 for the one it starts on), at that connection's (k * step + offset)-th
+    /// terminal->client packet counted from the first packet sent on it in this call: a fault that creeps forward by
+    /// `step` packets with every re-connection
+    Creeping { offset: usize, step: usize },
 }
 
 #[derive(Clone, Debug, PartialEq)]
@@ -778,6 +782,18 @@ fn next_tx_action(sh: &mut Shared, cmd: Cmd, reply_idx: usize, conn: usize) -> T
             At::Tx(i) => *i == idx,
             At::Point(c, r) => *c == cmd && *r == reply_idx,
             At::PointOnce(c, r) => *c == cmd && *r == reply_idx && !sh.fired.contains(&fi),
+            At::Creeping { offset, step } => {
+                // connections of this call in order of first use; packets already sent on this one in this call
+                let mut conns: Vec<usize> = vec![];
+                for p in sh.tx_points.iter().filter(|p| p.call == call) {
+                    if !conns.contains(&p.conn) {
+                        conns.push(p.conn);
+                    }
+                }
+                let k = conns.iter().position(|c| *c == conn).unwrap_or(0);
+                let sent_here = sh.tx_points.iter().filter(|p| p.call == call && p.conn == conn).count() - 1;
+                sent_here == k * step + offset
+            }
             _ => false,
         };
         if hit {
